@@ -1003,7 +1003,10 @@ class Engine:
         self.final_checks()
         viol = [v for v in self.viol if any(v[0].startswith(j) for j in self.judge)]
         foreign = [v for v in self.viol if not any(v[0].startswith(j) for j in self.judge)]
+        from .world import digest
+
         return {
+            "oplog": digest([[ob["res"], ob["got"]] for ob in self.obs]),
             "viol": viol,
             "foreign": [[v[0], v[1]] for v in foreign],
             "herr": self.harness_err,
